@@ -11,16 +11,16 @@ Inductive astate := SOld (a : oalign) | SArr (k : kind) (a : salign).
 
 Definition kind_of_code (c : Z) : kind := if c =? 0 then KDna else if c =? 1 then KRna else KOther.
 
-Definition obs_row (nr : Z * arow) : val :=
+Definition obs_row (nr : name * arow) : val :=
   let r := snd nr in
-  VL [VZ (fst nr); VS (row_gapped r); VZ (row_len r);
+  VL [VS (fst nr); VS (row_gapped r); VZ (row_len r);
       vlistZ (gap_pos (amap r)); vlistZ (cum_gap_lengths (amap r)); VZ (parent_length (amap r));
       VS (realise (adata r))].
 
 Definition obs (st : astate) : val :=
   match st with
   | SOld a => VL [VZ 0; VZ (al_len a); VL (map obs_row a)]
-  | SArr _ a => VL [VZ 1; VZ (slen a); VL (map (fun nr => VL [VZ (fst nr); VS (snd nr)]) a)]
+  | SArr _ a => VL [VZ 1; VZ (slen a); VL (map (fun nr => VL [VS (fst nr); VS (snd nr)]) a)]
   end.
 
 Definition nucleic (k : kind) : bool := match k with KOther => false | _ => true end.
@@ -49,22 +49,39 @@ Fixpoint run_steps (vr : variant) (indep : bool) (st : astate) (ops : list aop) 
 Definition no_gap_char (c : Z) : bool := negb ((c =? 45) || (c =? 63)).
 Definition obs_degap (st : astate) : val :=
   match st with
-  | SOld a => VL (map (fun nr => VL [VZ (fst nr); VS (filter no_gap_char (realise (adata (snd nr))))]) a)
-  | SArr _ a => VL (map (fun nr => VL [VZ (fst nr); VS (filter no_gap_char (snd nr))]) a)
+  | SOld a => VL (map (fun nr => VL [VS (fst nr); VS (filter no_gap_char (realise (adata (snd nr))))]) a)
+  | SArr _ a => VL (map (fun nr => VL [VS (fst nr); VS (filter no_gap_char (snd nr))]) a)
   end.
 
 (** read-only methods of the final alignment: names, len, positions, gap array, gaps per position, is_ragged *)
 Definition vbools (l : list bool) : val := VL (map VB l).
+(** canonical (non-degenerate) characters of the moltype: data, checked against the live moltype objects *)
+Definition canon_of (k : kind) (protein : bool) : list Z :=
+  match k with
+  | KDna => [84; 67; 65; 71]
+  | KRna => [85; 67; 65; 71]
+  | KOther => if protein then [65;67;68;69;70;71;72;73;75;76;77;78;80;81;82;83;84;85;86;87;89] else []
+  end.
+Definition vnames (l : list name) : val := VL (map VS l).
 Definition obs_ro (st : astate) : val :=
   match st with
-  | SOld a => VL [vlistZ (al_names a); VZ (al_len a); VL (map VS (al_positions a)); VL (map vbools (al_gap_array a));
-                  vlistZ (al_count_gaps_per_pos a); VB (al_is_ragged a)]
-  | SArr _ a => VL [vlistZ (s_names a); VZ (slen a); VL (map VS (s_positions a)); VL (map vbools (s_gap_array a));
-                    vlistZ (s_count_gaps_per_pos a); VB false]
+  | SOld a =>
+      let k := al_kind a in
+      VL [vnames (al_names a); VZ (al_len a); VL (map VS (al_positions a)); VL (map vbools (al_gap_array a));
+          vlistZ (al_count_gaps_per_pos a); VB (al_is_ragged a);
+          vlistZ (al_count_gaps_per_seq a); vlistZ (al_variable_positions a);
+          VL (map (fun p => VL [VS (fst p); VZ (snd p)]) (al_get_lengths (canon_of k true) a));
+          VL (map (fun n => match al_get_seq a n with Some d => VS d | None => VN end) (al_names a))]
+  | SArr k a =>
+      VL [vnames (s_names a); VZ (slen a); VL (map VS (s_positions a)); VL (map vbools (s_gap_array a));
+          vlistZ (s_count_gaps_per_pos a); VB false;
+          vlistZ (s_count_gaps_per_seq a); vlistZ (s_variable_positions a);
+          VL (map (fun p => VL [VS (fst p); VZ (snd p)]) (s_get_lengths (canon_of k true) a));
+          VL (map (fun nr => VS (snd nr)) a)]
   end.
 
 (** (variant flags, moltype code, array class?, independent ops?, rows, ops) *)
-Definition case := (list bool * Z * bool * bool * list (Z * list Z) * list aop)%type.
+Definition case := (list bool * Z * bool * bool * list (name * list Z) * list aop)%type.
 
 Definition variant_of (fl : list bool) : variant :=
   mkVar (nth 0 fl false) (nth 1 fl false) (nth 2 fl false) (nth 3 fl false) (nth 4 fl false).
